@@ -47,6 +47,7 @@ type interp struct {
 	stubsSeen     map[string]int
 	emitsSeen     map[string]int
 	syncMaps      map[*value]*syncMapState
+	syncPools     map[*value][]value
 	opaques       map[string]*opaque
 	killed        bool
 	mutexes       map[*value]*mutexState
